@@ -39,6 +39,9 @@ CHECKS = {
  "C02": ("Bounded exhaustive exploration of the complete first-generation pipeline (lexer to IR generation and linking) in crash-isolated worker processes: all token sequences up to length 3 (quick) / 4 (thorough) over 63 token kinds; a viable-prefix breadth-first search (prefixes not yet rejected except for 'unexpected end of file', extended by every token) to depth 7/8 from the empty input and 4/5 further tokens from 15 non-initial contexts; all character strings up to length 3 and fragment pairs, as a file and as a function body; the complete single-fault neighbourhood (delete, duplicate, swap, replace by each of 24 tokens, at every position) of grammar-derived programs and of the corpus files; nesting pumps for 10 self-embedding productions at depths 1..256 on a release-profile worker; all 584 histories of up to three module kinds through one Compiler. Invariant in every state: success with IR for every module, or failure with at least one diagnostic; never a panic, LLVM abort, stack overflow, timeout, internal error or empty error list.",
          "Trusted: the per-case watchdog (20 s) as the termination bound. Not covered: inputs beyond the bounds (64 KiB texts, multi-fault neighbourhoods of large files).",
          "explicit-state breadth-first search over inputs (viable-prefix) plus exhaustive fault enumeration, with a safety invariant evaluated in every state", "5 (C02)"),
+ "C03": ("Every accepted program of the bounded exhaustive spaces: the well-typed and unspecified cells of the complete type matrix, all label / variable / placement bodies up to 3 (quick) / 5 (thorough) statements, all declaration shapes (flags x head/body x return/void x parameter lists x main/other, with callers), all orders of the members of a structure literal with constant, variable and shorthand values in constant, local and argument position, programs that cannot be executed (undefined behaviour, non-termination, no main, opaque structs), natively and for the wasm target, all 512 histories of three module kinds, and the corpus. For each, the printed IR of every module and of the linked program is fed to llvm-as-14 and opt-14 -passes=verify as separate processes (identical texts once per worker), and a linkage model is checked: every function the source defines is `define`d, main and pub functions are not private/internal.",
+         "Trusted: llvm-as-14 / opt-14 (LLVM 14.0.6). In the quick tier opt -passes=verify runs on a quarter of the distinct texts (llvm-as, which also verifies, on all). The wasm builds keep the host target triple with a wasm data layout: recorded as a soft observation here (the property does not mention the triple), see C18.",
+         "exhaustive enumeration of accepted programs of a small scope, each state judged by an external reference (LLVM's assembler and verifier)", "5 (C03)"),
 }
 
 NOT_YET = {}
